@@ -8,8 +8,10 @@ def run(ck):
     import contracts_async  # noqa
     ck.assumptions += ['serde_yaml::Value accessors (get, as_str, ...) return arbitrary results; serde-generated deserialisers return arbitrary Ok/Err',
                        'a candidate panic is reported only when a YAML document from the replay battery makes the REAL loader panic (catch_unwind)']
-    ck.out_of_scope += ['serde / serde_yaml generated and library code', 'TLS file loading', '"accepted configuration runs" (load-balancer member cycles need a termination argument)',
+    ck.out_of_scope += ['serde / serde_yaml generated and library code', 'TLS file loading', '"accepted configuration runs" beyond: hashBy key expression present, members defined, no member cycle through <= 2 balancers',
                         '--test vs runtime agreement']
     loaders.run_all(ck)
     loadbalance.spec_lb_verify(ck)
+    loadbalance.spec_lb_init(ck)
+    loadbalance.spec_lb_member_graph(ck)
     ck.post_filter = lambda o: not o.label.startswith('C17/')
